@@ -10,6 +10,9 @@
                                                      reconstruct_data_from_frag, write_message (ACKNACK / NACK_FRAG reply)
      dds/src/rtps/stateful_writer.rs, reader_proxy.rs   on_acknack_submessage_received, on_nack_frag_submessage_received,
                                                      write_message_reliable (requested changes)
+   The code is the one after the repairs a89778b (INFO_REPLY ignored), 8329c8d (GAP in constant time),
+   6f37365 (SequenceNumberSet iterator), df6af72 (ACKNACK base), 1f8d93c (HEARTBEAT first <= 0),
+   9291c1e (sequence number i64::MAX), 84c5233 (fragment count vs payload).
    The decoder is Wire/WireModel.v (parse_message).  Debug profile: `+ 1` / `- 1` on i64 and `+=` on
    u32 panic on overflow.  A participant is the list of its stateful readers (user-defined first,
    then builtin: the order of the `chain` in handle_data) and of its stateful writers; every
@@ -25,18 +28,15 @@ Open Scope Z_scope.
 (* ------------------------------------------------------------------ panic sites
    file * 10000 + line;  files: 1 message_receiver.rs  2 communication_methods.rs
    3 stateful_reader.rs  4 writer_proxy.rs  5 stateful_writer.rs  6 submessage_elements.rs *)
-Definition S_MR_INFO_REPLY : Z := 10041.  (* RtpsSubmessageReadKind::InfoReply(_) => todo!() *)
 Definition S_SR_EXPECTED : Z := 30098.    (* available_changes_max() + 1   (lines 81, 98, 134, 140) *)
 Definition S_WP_DIV : Z := 40028.         (* data_size / fragment_size *)
 Definition S_WP_FRAGSUM : Z := 40103.     (* acc += f.fragments_in_submessage() as u32 *)
 Definition S_WP_FIRST : Z := 40170.       (* first_available_seq_num - 1 *)
 Definition S_WP_MISSING : Z := 40207.     (* highest_received_change_sn + 1 *)
 Definition S_WP_BASE : Z := 40292.        (* available_changes_max() + 1 in write_message *)
-Definition S_SW_ACKED : Z := 50151.       (* reader_sn_state().base() - 1 *)
 Definition S_SW_DIV : Z := 50199.         (* len.div_ceil(data_max_size_serialized) *)
-Definition S_SW_NFGAP : Z := 50252.       (* change_seq_num + 1 (NACK_FRAG for a change not in the history) *)
 Definition S_SW_REQGAP : Z := 50664.      (* next_requested_change_seq_num + 1 *)
-Definition S_SE : Z := 60000.             (* + 63: SequenceNumberSet iterator, + 178: FragmentNumberSet iterator *)
+Definition S_SE : Z := 60000.             (* + 178: FragmentNumberSet iterator; + line: a panic inside the decoder *)
 Definition site_file (s : Z) : Z := s / 10000.
 (* returned (not a panic): a branch this model does not describe was reached *)
 Definition E_UNSENT : Z := 77.
@@ -243,12 +243,24 @@ Definition hb_proxy (reid : list Z) (final live : bool) (first last count : Z) (
 Definition is_hist (p : wproxy) : res bool :=
   if 0 <? wp_hb p then mc <- missing_count p ;; Ok (mc =? 0) else Ok false.
 
-(* handle_gap_submessage on the matching proxy: the range loop, then the set *)
+(* SequenceNumberSet::set(): `base.checked_add(delta).filter(|sn| *sn < i64::MAX)`: the iteration
+   ends at the first set bit whose number would be i64::MAX or beyond *)
+Fixpoint sn_members_from (base : Z) (ws : list Z) (n : nat) (i : Z) : list Z :=
+  match n with
+  | O => []
+  | S k =>
+      if bit_set ws i then
+        if base + i <? i64_max then base + i :: sn_members_from base ws k (i + 1) else []
+      else sn_members_from base ws k (i + 1)
+  end.
+Definition sn_members (s : snset) : list Z :=
+  sn_members_from (ss_base s) (ss_map s) (Z.to_nat (ss_bits s)) 0.
+
+(* handle_gap_submessage on the matching proxy: the range gap_start..base is marked by its last
+   element, then the set *)
 Definition gap_proxy (start : Z) (gl : snset) (p : wproxy) : res wproxy :=
   let p1 := if start <? ss_base gl then raise_high p (ss_base gl - 1) else p in
-  ms <- lift_se (snset_members gl) ;;
-  Ok (fold_left raise_high ms p1).
-Definition gap_steps (start : Z) (gl : snset) : Z := Z.max 0 (ss_base gl - start).
+  Ok (fold_left raise_high (sn_members gl) p1).
 
 Definition hbf_proxy (count : Z) (p : wproxy) : wproxy := if wp_hb p <? count then set_wp_hbf p count else p.
 
@@ -276,9 +288,11 @@ Definition with_proxies (r : sreader) (x : res (list wproxy * outs)) : res (srea
 
 (* ---------------------------------------------------------------- the readers *)
 Definition reader_data (src wid : list Z) (s : Z) (r : sreader) : res (sreader * outs) :=
+  if s =? i64_max then Ok (r, []) else
   with_proxies r (upd_proxy wp_guid (src ++ wid) (quiet (on_data_proxy (sr_rel r) s)) (sr_proxies r)).
 Definition reader_frag (src wid : list Z) (f : frag) (r : sreader) : res (sreader * outs) :=
-  if fr_size f =? 0 then Ok (r, []) else
+  if (fr_size f =? 0) || (fr_sn f =? i64_max) then Ok (r, []) else
+  if fr_len f + 1 <? fr_count f then Ok (r, []) else
   with_proxies r (upd_proxy wp_guid (src ++ wid) (quiet (on_frag_proxy (sr_rel r) f)) (sr_proxies r)).
 Definition reader_gap (src wid : list Z) (start : Z) (gl : snset) (r : sreader) : res (sreader * outs) :=
   with_proxies r (upd_proxy wp_guid (src ++ wid) (quiet (gap_proxy start gl)) (sr_proxies r)).
@@ -316,8 +330,8 @@ Fixpoint send_all (w : swriter) (rp : rproxy) (l : list Z) : res outs :=
 (* on_acknack_submessage_received on the matching reader proxy *)
 Definition acknack_proxy (w : swriter) (st : snset) (count : Z) (rp : rproxy) : res (rproxy * outs) :=
   if rp_rel rp && (rp_an rp <? count) then
-    acked <- sub1 S_SW_ACKED (ss_base st) ;;
-    ms <- lift_se (snset_members st) ;;
+    let acked := Z.max i64_min (ss_base st - 1) in       (* saturating_sub *)
+    let ms := sn_members st in
     let rp1 := mk_rp (rp_guid rp) (rp_rel rp) (rp_sent rp) (if rp_acked rp <? acked then acked else rp_acked rp)
                      count (rp_nf rp) (rp_first_rel rp) in
     (* top part of write_message_reliable: changes not yet sent.  Every change is sent when it is
@@ -345,7 +359,7 @@ Definition nackfrag_proxy (w : swriter) (s : Z) (fs : fnset) (count : Z) (rp : r
         let reqs := fs_base fs :: filter (fun k => negb (k =? fs_base fs)) ms in
         Ok (rp1, map (fun k => [ODataFrag (wid_of (rp_guid rp)) (sw_eid w) s k (frag_len w c k)])
                      (filter (fun k => (1 <=? k) && (k <=? n) && ch_alive c) reqs))
-    | None => b <- add1 S_SW_NFGAP s ;; Ok (rp1, [[OGap (repeat 0 4) (sw_eid w) s b]])
+    | None => Ok (rp1, [[OGap (repeat 0 4) (sw_eid w) s (Z.min i64_max (s + 1))]])     (* saturating_add *)
     end
   else Ok (rp, []).
 Definition writer_nackfrag (src rid : list Z) (s : Z) (fs : fnset) (count : Z) (w : swriter) : res (swriter * outs) :=
@@ -364,7 +378,7 @@ Definition handle_sub (rs : rstate) (st : pstate) (m : psub) : res (rstate * pst
   | InfoTs inval s f =>
       Ok (if inval then mk_rs (rs_src rs) (rs_dst rs) false (u32_max, u32_max)
           else mk_rs (rs_src rs) (rs_dst rs) true (s, f), st, [])
-  | InfoReply _ _ _ => Panic S_MR_INFO_REPLY
+  | InfoReply _ _ _ => Ok (rs, st, [])
   | Pad => Ok (rs, st, [])
   | Data _ _ _ _ _ wid s _ _ =>
       (* the SPDP stateless reader only pushes a cache change; then every stateful reader *)
@@ -374,6 +388,7 @@ Definition handle_sub (rs : rstate) (st : pstate) (m : psub) : res (rstate * pst
   | Gap _ wid start gl =>
       r <- on_readers st (reader_gap (rs_src rs) wid start gl) ;; Ok (rs, fst r, snd r)
   | Heartbeat final live _ wid first last count =>
+      if first <=? 0 then Ok (rs, st, []) else
       r <- on_readers st (reader_hb (rs_src rs) wid final live first last count) ;; Ok (rs, fst r, snd r)
   | HeartbeatFrag _ wid _ _ count =>
       r <- on_readers st (reader_hbf (rs_src rs) wid count) ;; Ok (rs, fst r, snd r)
@@ -399,18 +414,15 @@ Definition handle_datagram (st : pstate) (bytes : list Z) : res (pstate * outs) 
   end.
 
 (* ----------------------------------------------- work chosen by the sender
-   trip counts of the two loops whose bound is an arithmetic function of wire values: the GAP
-   range loop (per matching proxy) and the reassembly loop (trips x buffer length).  Every other
-   loop of the handlers runs over a decoded set (at most 256 members, enforced by the decoder)
-   or over a container of the participant. *)
+   trip count of the one loop whose bound is an arithmetic function of wire values: the
+   reassembly loop (trips x buffer length).  Every other loop of the handlers runs over a decoded
+   set (at most 256 members, enforced by the decoder) or over a container of the participant. *)
 Definition proxy_steps (g : list Z) (f : wproxy -> Z) (l : list wproxy) : Z :=
   match find (fun p => list_eqb (wp_guid p) g) l with Some p => f p | None => 0 end.
 Definition sub_steps (rs : rstate) (st : pstate) (m : psub) : Z :=
   match m with
-  | Gap _ wid start gl =>
-      sumZ (map (fun r => proxy_steps (rs_src rs ++ wid) (fun _ => gap_steps start gl) (sr_proxies r)) (ps_readers st))
   | DataFrag _ _ _ _ wid s fs fc fz ds _ payload =>
-      if fz =? 0 then 0 else
+      if (fz =? 0) || (s =? i64_max) || (len payload + 1 <? fc) then 0 else
       sumZ (map (fun r => proxy_steps (rs_src rs ++ wid) (frag_steps (sr_rel r) (mk_frag s fs fc fz ds (len payload)))
                                       (sr_proxies r)) (ps_readers st))
   | _ => 0
@@ -445,57 +457,24 @@ Definition frag_bytes_sub (m : psub) : Z :=
   match m with DataFrag _ _ _ _ _ _ _ _ _ _ _ payload => len payload + 1 | _ => 0 end.
 Definition frag_bytes (l : list psub) : Z := sumZ (map frag_bytes_sub l).
 
-(* ----------------------------------------------------------- known classes
-   decided on the decoded submessage alone *)
-Definition GAP_LIMIT : Z := 65536.
 Definition ziota (n : Z) : list Z := map Z.of_nat (seq 0 (Z.to_nat n)).
-Definition set_overflows (s : snset) : bool :=
-  existsb (fun i => bit_set (ss_map s) i && (i64_max <=? ss_base s + i)) (ziota (ss_bits s)).
 Definition fset_overflows (s : fnset) : bool :=
   existsb (fun i => bit_set (fs_map s) i && (u32_max <? fs_base s + i)) (ziota (fs_bits s)).
-
-(* 1: INFO_REPLY => todo!() *)
-Definition k_inforeply (m : psub) : bool := match m with InfoReply _ _ _ => true | _ => false end.
-(* 2: GAP whose range gap_start .. base is longer than GAP_LIMIT (work not bounded by the datagram) *)
-Definition k_gap_range (m : psub) : bool :=
-  match m with Gap _ _ start gl => GAP_LIMIT <? ss_base gl - start | _ => false end.
-(* 3: a sequence number set with a member >= i64::MAX (base + delta overflows in the iterator, or
-      the member i64::MAX itself, which later makes `+ 1` overflow) *)
-Definition k_set_max (m : psub) : bool :=
-  match m with
-  | Gap _ _ _ gl => set_overflows gl || (i64_max <? ss_base gl)
-  | AckNack _ _ _ st _ => set_overflows st
-  | _ => false
-  end.
-(* 4: ACKNACK with base i64::MIN (base - 1) *)
-Definition k_acknack_min (m : psub) : bool :=
-  match m with AckNack _ _ _ st _ => ss_base st <=? i64_min | _ => false end.
-(* 5: HEARTBEAT with first_sn i64::MIN (first_available_seq_num - 1) *)
-Definition k_hb_min (m : psub) : bool :=
-  match m with Heartbeat _ _ _ _ first _ _ => (first <=? i64_min) || (i64_max <? first) | _ => false end.
-(* 6: DATA / DATA_FRAG / NACK_FRAG carrying the sequence number i64::MAX (+ 1 overflows) *)
-Definition k_sn_max (m : psub) : bool :=
-  match m with
-  | Data _ _ _ _ _ _ s _ _ => i64_max <=? s
-  | DataFrag _ _ _ _ _ s _ _ _ _ _ _ => i64_max <=? s
-  | NackFrag _ _ s _ _ => i64_max <=? s
-  | _ => false
-  end.
-(* 7: DATA_FRAG announcing more fragments than it has payload bytes (reassembly loop) *)
-Definition k_frag_count (m : psub) : bool :=
-  match m with DataFrag _ _ _ _ _ _ _ fc _ _ _ payload => (len payload + 1 <? fc) || (fc <? 0) | _ => false end.
-(* never produced by the decoder (FragmentNumberSet::try_read_from_bytes panics first, C07): a
-   FragmentNumberSet whose iterator overflows u32 *)
-Definition k_fset (m : psub) : bool :=
-  match m with NackFrag _ _ _ fs _ => fset_overflows fs | _ => false end.
-
-Definition known_panic (m : psub) : bool :=
-  k_inforeply m || k_set_max m || k_acknack_min m || k_hb_min m || k_sn_max m || k_fset m.
-Definition known_cost (m : psub) : bool := k_gap_range m || k_frag_count m.
-Definition known_sub (m : psub) : bool := known_panic m || known_cost m.
 Definition subs_of (bytes : list Z) : list psub :=
   match parse_message bytes with Ok (_, l) => l | _ => [] end.
-Definition C06_known_dgram (bytes : list Z) : bool := existsb known_sub (subs_of bytes).
+
+(* every numeric field the handlers compute with lies in its machine range: true for whatever
+   the decoder returns on a byte string (Wire/RecvRangeProofs.v) *)
+Definition sub_range (m : psub) : Prop :=
+  match m with
+  | AckNack _ _ _ st _ => in_i64 (ss_base st)
+  | Data _ _ _ _ _ _ s _ _ => in_i64 s
+  | DataFrag _ _ _ _ _ s _ fc _ _ _ _ => in_i64 s /\ 0 <= fc
+  | Gap _ _ start gl => in_i64 start /\ in_i64 (ss_base gl)
+  | Heartbeat _ _ _ _ first last _ => in_i64 first /\ in_i64 last
+  | NackFrag _ _ s fs _ => in_i64 s /\ fset_overflows fs = false
+  | _ => True
+  end.
 
 (* ------------------------------------------------------------------ isolation *)
 (* the guid prefixes a datagram speaks for: the header's and every INFO_SOURCE's *)
@@ -523,10 +502,9 @@ Fixpoint run_datagrams (st : pstate) (ds : list (list Z)) : res pstate :=
   | d :: t => r <- handle_datagram st d ;; run_datagrams (fst r) t
   end.
 Definition total_frag_bytes (ds : list (list Z)) : Z := sumZ (map (fun d => frag_bytes (subs_of d)) ds).
-Definition dgram_fine (d : list Z) : Prop := is_panic (parse_message d) = false /\ C06_known_dgram d = false.
 
 (* the bound claimed for the sender-chosen work of one datagram *)
-Definition steps_bound (nsubs nreaders C : Z) : Z := nsubs * nreaders * Z.max GAP_LIMIT ((C + 1) * (C + 1)).
+Definition steps_bound (nsubs nreaders C : Z) : Z := nsubs * nreaders * ((C + 1) * (C + 1)).
 
 (* ------------------------------------------------- a concrete participant state
    one user-defined reliable reader matched with the writer 00000002 of participant S
@@ -552,3 +530,10 @@ Definition w_data_max : list Z := [82;84;80;83;2;4;1;20;5;6;7;8;1;2;3;4;2;0;0;0;
 Definition w_data_3 : list Z := [82;84;80;83;2;4;1;20;5;6;7;8;1;2;3;4;2;0;0;0;21;5;36;0;0;0;16;0;0;0;0;7;0;0;0;2;0;0;0;0;3;0;0;0;0;1;0;1;1;0;0;0;3;0;0;0;97;98;99;0].
 Definition w_frag_flood : list Z := [82;84;80;83;2;4;1;20;5;6;7;8;1;2;3;4;2;0;0;0;22;1;33;0;0;0;28;0;0;0;0;7;0;0;0;2;0;0;0;0;1;0;0;0;1;0;0;0;255;255;1;0;206;255;49;0;120;22;1;33;0;0;0;28;0;0;0;0;7;0;0;0;2;0;0;0;0;1;0;0;0;2;0;0;0;255;255;1;0;206;255;49;0;120;22;1;33;0;0;0;28;0;0;0;0;7;0;0;0;2;0;0;0;0;1;0;0;0;3;0;0;0;255;255;1;0;206;255;49;0;120;22;1;33;0;0;0;28;0;0;0;0;7;0;0;0;2;0;0;0;0;1;0;0;0;4;0;0;0;255;255;1;0;206;255;49;0;120;22;1;33;0;0;0;28;0;0;0;0;7;0;0;0;2;0;0;0;0;1;0;0;0;5;0;0;0;255;255;1;0;206;255;49;0;120;22;1;33;0;0;0;28;0;0;0;0;7;0;0;0;2;0;0;0;0;1;0;0;0;6;0;0;0;255;255;1;0;206;255;49;0;120;22;1;33;0;0;0;28;0;0;0;0;7;0;0;0;2;0;0;0;0;1;0;0;0;7;0;0;0;255;255;1;0;206;255;49;0;120;22;1;33;0;0;0;28;0;0;0;0;7;0;0;0;2;0;0;0;0;1;0;0;0;8;0;0;0;255;255;1;0;206;255;49;0;120;22;1;33;0;0;0;28;0;0;0;0;7;0;0;0;2;0;0;0;0;1;0;0;0;9;0;0;0;255;255;1;0;206;255;49;0;120;22;1;33;0;0;0;28;0;0;0;0;7;0;0;0;2;0;0;0;0;1;0;0;0;10;0;0;0;255;255;1;0;206;255;49;0;120;22;1;33;0;0;0;28;0;0;0;0;7;0;0;0;2;0;0;0;0;1;0;0;0;11;0;0;0;255;255;1;0;206;255;49;0;120;22;1;33;0;0;0;28;0;0;0;0;7;0;0;0;2;0;0;0;0;1;0;0;0;12;0;0;0;255;255;1;0;206;255;49;0;120;22;1;33;0;0;0;28;0;0;0;0;7;0;0;0;2;0;0;0;0;1;0;0;0;13;0;0;0;255;255;1;0;206;255;49;0;120;22;1;33;0;0;0;28;0;0;0;0;7;0;0;0;2;0;0;0;0;1;0;0;0;14;0;0;0;255;255;1;0;206;255;49;0;120;22;1;33;0;0;0;28;0;0;0;0;7;0;0;0;2;0;0;0;0;1;0;0;0;15;0;0;0;255;255;1;0;206;255;49;0;120;22;1;33;0;0;0;28;0;0;0;0;7;0;0;0;2;0;0;0;0;1;0;0;0;16;0;0;0;255;255;1;0;206;255;49;0;120;22;1;33;0;0;0;28;0;0;0;0;7;0;0;0;2;0;0;0;0;1;0;0;0;17;0;0;0;255;255;1;0;206;255;49;0;120;22;1;33;0;0;0;28;0;0;0;0;7;0;0;0;2;0;0;0;0;1;0;0;0;18;0;0;0;255;255;1;0;206;255;49;0;120;22;1;33;0;0;0;28;0;0;0;0;7;0;0;0;2;0;0;0;0;1;0;0;0;19;0;0;0;255;255;1;0;206;255;49;0;120;22;1;33;0;0;0;28;0;0;0;0;7;0;0;0;2;0;0;0;0;1;0;0;0;20;0;0;0;255;255;1;0;206;255;49;0;120;22;1;33;0;0;0;28;0;0;0;0;7;0;0;0;2;0;0;0;0;1;0;0;0;21;0;0;0;255;255;1;0;206;255;49;0;120;22;1;33;0;0;0;28;0;0;0;0;7;0;0;0;2;0;0;0;0;1;0;0;0;22;0;0;0;255;255;1;0;206;255;49;0;120;22;1;33;0;0;0;28;0;0;0;0;7;0;0;0;2;0;0;0;0;1;0;0;0;23;0;0;0;255;255;1;0;206;255;49;0;120;22;1;33;0;0;0;28;0;0;0;0;7;0;0;0;2;0;0;0;0;1;0;0;0;24;0;0;0;255;255;1;0;206;255;49;0;120;22;1;33;0;0;0;28;0;0;0;0;7;0;0;0;2;0;0;0;0;1;0;0;0;25;0;0;0;255;255;1;0;206;255;49;0;120;22;1;33;0;0;0;28;0;0;0;0;7;0;0;0;2;0;0;0;0;1;0;0;0;26;0;0;0;255;255;1;0;206;255;49;0;120;22;1;33;0;0;0;28;0;0;0;0;7;0;0;0;2;0;0;0;0;1;0;0;0;27;0;0;0;255;255;1;0;206;255;49;0;120;22;1;33;0;0;0;28;0;0;0;0;7;0;0;0;2;0;0;0;0;1;0;0;0;28;0;0;0;255;255;1;0;206;255;49;0;120;22;1;33;0;0;0;28;0;0;0;0;7;0;0;0;2;0;0;0;0;1;0;0;0;29;0;0;0;255;255;1;0;206;255;49;0;120;22;1;33;0;0;0;28;0;0;0;0;7;0;0;0;2;0;0;0;0;1;0;0;0;30;0;0;0;255;255;1;0;206;255;49;0;120;22;1;33;0;0;0;28;0;0;0;0;7;0;0;0;2;0;0;0;0;1;0;0;0;31;0;0;0;255;255;1;0;206;255;49;0;120;22;1;33;0;0;0;28;0;0;0;0;7;0;0;0;2;0;0;0;0;1;0;0;0;32;0;0;0;255;255;1;0;206;255;49;0;120;22;1;33;0;0;0;28;0;0;0;0;7;0;0;0;2;0;0;0;0;1;0;0;0;33;0;0;0;255;255;1;0;206;255;49;0;120;22;1;33;0;0;0;28;0;0;0;0;7;0;0;0;2;0;0;0;0;1;0;0;0;34;0;0;0;255;255;1;0;206;255;49;0;120;22;1;33;0;0;0;28;0;0;0;0;7;0;0;0;2;0;0;0;0;1;0;0;0;35;0;0;0;255;255;1;0;206;255;49;0;120;22;1;33;0;0;0;28;0;0;0;0;7;0;0;0;2;0;0;0;0;1;0;0;0;36;0;0;0;255;255;1;0;206;255;49;0;120;22;1;33;0;0;0;28;0;0;0;0;7;0;0;0;2;0;0;0;0;1;0;0;0;37;0;0;0;255;255;1;0;206;255;49;0;120;22;1;33;0;0;0;28;0;0;0;0;7;0;0;0;2;0;0;0;0;1;0;0;0;38;0;0;0;255;255;1;0;206;255;49;0;120;22;1;33;0;0;0;28;0;0;0;0;7;0;0;0;2;0;0;0;0;1;0;0;0;39;0;0;0;255;255;1;0;206;255;49;0;120;22;1;33;0;0;0;28;0;0;0;0;7;0;0;0;2;0;0;0;0;1;0;0;0;40;0;0;0;255;255;1;0;206;255;49;0;120;22;1;33;0;0;0;28;0;0;0;0;7;0;0;0;2;0;0;0;0;1;0;0;0;41;0;0;0;255;255;1;0;206;255;49;0;120;22;1;33;0;0;0;28;0;0;0;0;7;0;0;0;2;0;0;0;0;1;0;0;0;42;0;0;0;255;255;1;0;206;255;49;0;120;22;1;33;0;0;0;28;0;0;0;0;7;0;0;0;2;0;0;0;0;1;0;0;0;43;0;0;0;255;255;1;0;206;255;49;0;120;22;1;33;0;0;0;28;0;0;0;0;7;0;0;0;2;0;0;0;0;1;0;0;0;44;0;0;0;255;255;1;0;206;255;49;0;120;22;1;33;0;0;0;28;0;0;0;0;7;0;0;0;2;0;0;0;0;1;0;0;0;45;0;0;0;255;255;1;0;206;255;49;0;120;22;1;33;0;0;0;28;0;0;0;0;7;0;0;0;2;0;0;0;0;1;0;0;0;46;0;0;0;255;255;1;0;206;255;49;0;120;22;1;33;0;0;0;28;0;0;0;0;7;0;0;0;2;0;0;0;0;1;0;0;0;47;0;0;0;255;255;1;0;206;255;49;0;120;22;1;33;0;0;0;28;0;0;0;0;7;0;0;0;2;0;0;0;0;1;0;0;0;48;0;0;0;255;255;1;0;206;255;49;0;120;22;1;33;0;0;0;28;0;0;0;0;7;0;0;0;2;0;0;0;0;1;0;0;0;49;0;0;0;255;255;1;0;206;255;49;0;120;22;1;33;0;0;0;28;0;0;0;0;7;0;0;0;2;0;0;0;0;1;0;0;0;50;0;0;0;255;255;1;0;206;255;49;0;120].
 Definition w_clean : list Z := [82;84;80;83;2;4;1;20;5;6;7;8;1;2;3;4;2;0;0;0;9;1;8;0;1;0;0;0;0;0;0;0;7;1;28;0;0;0;0;7;0;0;0;2;0;0;0;0;1;0;0;0;0;0;0;0;3;0;0;0;5;0;0;0;8;1;32;0;0;0;0;7;0;0;0;2;0;0;0;0;1;0;0;0;0;0;0;0;2;0;0;0;2;0;0;0;0;0;0;64;6;1;28;0;0;0;0;7;0;0;0;2;0;0;0;0;1;0;0;0;2;0;0;0;0;0;0;192;4;0;0;0;22;1;40;0;0;0;28;0;0;0;0;7;0;0;0;2;0;0;0;0;4;0;0;0;1;0;0;0;1;0;8;0;12;0;0;0;0;0;0;0;0;0;0;0;18;1;32;0;0;0;0;7;0;0;0;2;0;0;0;0;1;0;0;0;1;0;0;0;1;0;0;0;0;0;0;128;2;0;0;0;12;1;20;0;0;0;0;0;2;4;1;20;9;9;9;9;9;9;9;9;9;9;9;9;21;5;36;0;0;0;16;0;0;0;0;7;0;0;0;2;0;0;0;0;4;0;0;0;0;1;0;1;1;0;0;0;3;0;0;0;97;98;99;0].
+
+(* the datagrams that panicked / hung the participant before the repairs, in one history *)
+Definition former_witnesses : list (list Z) :=
+  [w_inforeply; w_gap_range; w_set_iter; w_set_member_max; w_gap_member_max; w_data_5; w_acknack_min; w_hb_min;
+   w_hb_min_final; w_data_1; w_nackfrag_max; w_hb_first_max; w_data_max; w_data_3; w_frag_flood].
+(* 40 honest DATA_FRAGs (fragment size 1) of a 40-byte sample, in one datagram *)
+Definition w_honest_frags : list Z := [82;84;80;83;2;4;1;20;5;6;7;8;1;2;3;4;2;0;0;0;22;1;33;0;0;0;28;0;0;0;0;7;0;0;0;2;0;0;0;0;1;0;0;0;1;0;0;0;1;0;1;0;40;0;0;0;120;22;1;33;0;0;0;28;0;0;0;0;7;0;0;0;2;0;0;0;0;1;0;0;0;2;0;0;0;1;0;1;0;40;0;0;0;120;22;1;33;0;0;0;28;0;0;0;0;7;0;0;0;2;0;0;0;0;1;0;0;0;3;0;0;0;1;0;1;0;40;0;0;0;120;22;1;33;0;0;0;28;0;0;0;0;7;0;0;0;2;0;0;0;0;1;0;0;0;4;0;0;0;1;0;1;0;40;0;0;0;120;22;1;33;0;0;0;28;0;0;0;0;7;0;0;0;2;0;0;0;0;1;0;0;0;5;0;0;0;1;0;1;0;40;0;0;0;120;22;1;33;0;0;0;28;0;0;0;0;7;0;0;0;2;0;0;0;0;1;0;0;0;6;0;0;0;1;0;1;0;40;0;0;0;120;22;1;33;0;0;0;28;0;0;0;0;7;0;0;0;2;0;0;0;0;1;0;0;0;7;0;0;0;1;0;1;0;40;0;0;0;120;22;1;33;0;0;0;28;0;0;0;0;7;0;0;0;2;0;0;0;0;1;0;0;0;8;0;0;0;1;0;1;0;40;0;0;0;120;22;1;33;0;0;0;28;0;0;0;0;7;0;0;0;2;0;0;0;0;1;0;0;0;9;0;0;0;1;0;1;0;40;0;0;0;120;22;1;33;0;0;0;28;0;0;0;0;7;0;0;0;2;0;0;0;0;1;0;0;0;10;0;0;0;1;0;1;0;40;0;0;0;120;22;1;33;0;0;0;28;0;0;0;0;7;0;0;0;2;0;0;0;0;1;0;0;0;11;0;0;0;1;0;1;0;40;0;0;0;120;22;1;33;0;0;0;28;0;0;0;0;7;0;0;0;2;0;0;0;0;1;0;0;0;12;0;0;0;1;0;1;0;40;0;0;0;120;22;1;33;0;0;0;28;0;0;0;0;7;0;0;0;2;0;0;0;0;1;0;0;0;13;0;0;0;1;0;1;0;40;0;0;0;120;22;1;33;0;0;0;28;0;0;0;0;7;0;0;0;2;0;0;0;0;1;0;0;0;14;0;0;0;1;0;1;0;40;0;0;0;120;22;1;33;0;0;0;28;0;0;0;0;7;0;0;0;2;0;0;0;0;1;0;0;0;15;0;0;0;1;0;1;0;40;0;0;0;120;22;1;33;0;0;0;28;0;0;0;0;7;0;0;0;2;0;0;0;0;1;0;0;0;16;0;0;0;1;0;1;0;40;0;0;0;120;22;1;33;0;0;0;28;0;0;0;0;7;0;0;0;2;0;0;0;0;1;0;0;0;17;0;0;0;1;0;1;0;40;0;0;0;120;22;1;33;0;0;0;28;0;0;0;0;7;0;0;0;2;0;0;0;0;1;0;0;0;18;0;0;0;1;0;1;0;40;0;0;0;120;22;1;33;0;0;0;28;0;0;0;0;7;0;0;0;2;0;0;0;0;1;0;0;0;19;0;0;0;1;0;1;0;40;0;0;0;120;22;1;33;0;0;0;28;0;0;0;0;7;0;0;0;2;0;0;0;0;1;0;0;0;20;0;0;0;1;0;1;0;40;0;0;0;120;22;1;33;0;0;0;28;0;0;0;0;7;0;0;0;2;0;0;0;0;1;0;0;0;21;0;0;0;1;0;1;0;40;0;0;0;120;22;1;33;0;0;0;28;0;0;0;0;7;0;0;0;2;0;0;0;0;1;0;0;0;22;0;0;0;1;0;1;0;40;0;0;0;120;22;1;33;0;0;0;28;0;0;0;0;7;0;0;0;2;0;0;0;0;1;0;0;0;23;0;0;0;1;0;1;0;40;0;0;0;120;22;1;33;0;0;0;28;0;0;0;0;7;0;0;0;2;0;0;0;0;1;0;0;0;24;0;0;0;1;0;1;0;40;0;0;0;120;22;1;33;0;0;0;28;0;0;0;0;7;0;0;0;2;0;0;0;0;1;0;0;0;25;0;0;0;1;0;1;0;40;0;0;0;120;22;1;33;0;0;0;28;0;0;0;0;7;0;0;0;2;0;0;0;0;1;0;0;0;26;0;0;0;1;0;1;0;40;0;0;0;120;22;1;33;0;0;0;28;0;0;0;0;7;0;0;0;2;0;0;0;0;1;0;0;0;27;0;0;0;1;0;1;0;40;0;0;0;120;22;1;33;0;0;0;28;0;0;0;0;7;0;0;0;2;0;0;0;0;1;0;0;0;28;0;0;0;1;0;1;0;40;0;0;0;120;22;1;33;0;0;0;28;0;0;0;0;7;0;0;0;2;0;0;0;0;1;0;0;0;29;0;0;0;1;0;1;0;40;0;0;0;120;22;1;33;0;0;0;28;0;0;0;0;7;0;0;0;2;0;0;0;0;1;0;0;0;30;0;0;0;1;0;1;0;40;0;0;0;120;22;1;33;0;0;0;28;0;0;0;0;7;0;0;0;2;0;0;0;0;1;0;0;0;31;0;0;0;1;0;1;0;40;0;0;0;120;22;1;33;0;0;0;28;0;0;0;0;7;0;0;0;2;0;0;0;0;1;0;0;0;32;0;0;0;1;0;1;0;40;0;0;0;120;22;1;33;0;0;0;28;0;0;0;0;7;0;0;0;2;0;0;0;0;1;0;0;0;33;0;0;0;1;0;1;0;40;0;0;0;120;22;1;33;0;0;0;28;0;0;0;0;7;0;0;0;2;0;0;0;0;1;0;0;0;34;0;0;0;1;0;1;0;40;0;0;0;120;22;1;33;0;0;0;28;0;0;0;0;7;0;0;0;2;0;0;0;0;1;0;0;0;35;0;0;0;1;0;1;0;40;0;0;0;120;22;1;33;0;0;0;28;0;0;0;0;7;0;0;0;2;0;0;0;0;1;0;0;0;36;0;0;0;1;0;1;0;40;0;0;0;120;22;1;33;0;0;0;28;0;0;0;0;7;0;0;0;2;0;0;0;0;1;0;0;0;37;0;0;0;1;0;1;0;40;0;0;0;120;22;1;33;0;0;0;28;0;0;0;0;7;0;0;0;2;0;0;0;0;1;0;0;0;38;0;0;0;1;0;1;0;40;0;0;0;120;22;1;33;0;0;0;28;0;0;0;0;7;0;0;0;2;0;0;0;0;1;0;0;0;39;0;0;0;1;0;1;0;40;0;0;0;120;22;1;33;0;0;0;28;0;0;0;0;7;0;0;0;2;0;0;0;0;1;0;0;0;40;0;0;0;1;0;1;0;40;0;0;0;120].
